@@ -34,8 +34,8 @@ ASSUMPTIONS = [
     'in the pickling harness (any code point)',
 ]
 OUTSIDE = ['trees with more nodes than the bound',
-           'transport between real processes of a fork pool (needs real '
-           'processes; the pickling round trip is what the pool performs)']
+           'transport between real processes is only exercised concretely '
+           '(partition xproc, auxiliary)']
 
 
 def bounds(tier):
@@ -388,6 +388,50 @@ def run_bsearch(limit):
                     'is not solver-decided here): auxiliary'}
 
 
+def _child_nodes(k):
+    """Runs in a forked worker: creates nodes, returns their ids and a tree."""
+    from ddsmt.nodes import Node
+    ids = [Node(f'c{k}_{i}').id for i in range(20)]
+    tree = Node('f', Node('g', f'leaf{k}', 'é∀'), ())
+    return ids, tree, [n.id for n in T.all_nodes(tree)], tree.__hash__()
+
+
+def run_xproc():
+    """Auxiliary (real fork pool, concrete): ids handed out in different
+    processes never coincide; a tree sent back from a worker is equal to what
+    the worker built, with the same ids and hash."""
+    import multiprocessing
+    import time
+    from ddsmt.nodes import Node
+    t0 = time.time()
+    ctx = multiprocessing.get_context('fork')
+    mine = [Node(f'p{i}').id for i in range(20)]
+    with ctx.Pool(3) as pool:
+        res = pool.map(_child_nodes, range(6))
+    mine += [Node(f'q{i}').id for i in range(20)]
+    allids = list(mine)
+    bad = None
+    for k, (ids, tree, tids, h) in enumerate(res):
+        allids += ids + tids
+        if [n.id for n in T.all_nodes(tree)] != tids:
+            bad = 'node ids changed in transport between processes'
+        if T.to_list(tree) != ['f', ['g', f'leaf{k}', 'é∀'], []]:
+            bad = f'tree changed in transport: {T.to_list(tree)!r}'
+        if tree.__hash__() != h:
+            bad = 'hash changed in transport'
+    if len(set(allids)) != len(allids):
+        bad = ('two nodes created in different processes of a fork pool '
+               'carry the same id')
+    return {'status': 'VIOLATED' if bad else 'CONFIRMED',
+            'cex': {'xproc': True} if bad else None,
+            'exc': {'type': 'Violation', 'msg': bad} if bad else None,
+            'paths': len(allids), 'paths_ok': len(allids),
+            'samples': [{'ids_checked': len(allids)}],
+            'solver_checks': 0, 'solver_seconds': 0.0,
+            'wall_s': round(time.time() - t0, 2),
+            'note': 'real fork pool, concrete (auxiliary)'}
+
+
 def _chunks(xs, n):
     k = max(1, (len(xs) + n - 1) // n)
     return [xs[i:i + k] for i in range(0, len(xs), k)]
@@ -441,6 +485,8 @@ def partitions(tier):
         parts.append({'name': f'walk_{k}', 'fn': make_walk(ch),
                       'setup': _setup_s, 'budget_s': bud,
                       'bounds': {'shapes': len(ch), 'max_depth': '0..5|None'}})
+    parts.append({'name': 'xproc', 'kind': 'native', 'run': run_xproc,
+                  'budget_s': 120})
     parts.append({'name': 'bsearch', 'kind': 'native',
                   'run': lambda: run_bsearch(300 if tier == 'quick' else 3000),
                   'budget_s': 60})
@@ -474,6 +520,9 @@ def replay(part, cex):
             return replay_walk(ch[int(k)], cex)
         if kind == 'bsearch':
             return _bsearch_check(cex['n'])
+        if kind == 'xproc':
+            r = run_xproc()
+            return r['exc']['msg'] if r['exc'] else None
     except Exception as e:
         return f'{type(e).__name__}: {e}'
     return None
